@@ -49,7 +49,7 @@ CLAIMED = {
              "judged event by event by TraceAlignObj.tla.",
         note="Pairwise values are taken through the compiled form (C04 ties that to the formulas); soft alignments without "
              "continuum excluded. One known finding (UnitaryAlignment.compute_disorder with an empty slot, pinned by a test).",
-        technique="TLA+ definition of disorder evaluated by TLC on recorded alignments (trace validation)",
+        technique="TLA+ definition of disorder evaluated by TLC on recorded alignments (trace validation); TLC model checking of the alignment-object life cycle (AlignObj.tla) bound by transition replay (spec -> code) and event-by-event trace validation (code -> spec)",
         design="4/C03"),
     "C07": dict(
         text="Enum.tla models the enumerator step by step (mixed-radix counter, filter, buffer growth by half, final slice) for "
